@@ -268,6 +268,42 @@ type step struct {
 // helper functions that did not exist when the rules were confirmed (extracted by a refactoring).
 var Inlineable = func(*ssa.Function) bool { return false }
 
+// InlineTarget gives the function whose body is spliced into the caller's paths at this call, or nil when
+// the call stays opaque. Inside a generic function a call of another generic function goes through an
+// instantiation wrapper: the body spliced is the generic one.
+func InlineTarget(call *ssa.Call) *ssa.Function {
+	if call.Call.IsInvoke() {
+		return nil
+	}
+	g, ok := call.Call.Value.(*ssa.Function)
+	if !ok {
+		return nil
+	}
+	if strings.HasPrefix(g.Synthetic, "instantiation wrapper") && g.Origin() != nil {
+		g = g.Origin()
+	}
+	if len(g.Blocks) == 0 || !Inlineable(g) {
+		return nil
+	}
+	return g
+}
+
+// typeBinding maps the type parameters of a spliced generic body to the type arguments of the call.
+func typeBinding(call *ssa.Call, g *ssa.Function, outer map[*types.TypeParam]types.Type) map[*types.TypeParam]types.Type {
+	w, ok := call.Call.Value.(*ssa.Function)
+	if !ok || w == g || g.TypeParams() == nil || len(w.TypeArgs()) != g.TypeParams().Len() {
+		return nil
+	}
+	m := map[*types.TypeParam]types.Type{}
+	for i, ta := range w.TypeArgs() {
+		if len(outer) > 0 {
+			ta = substType(ta, outer)
+		}
+		m[g.TypeParams().At(i)] = ta
+	}
+	return m
+}
+
 // MaxInlineDepth bounds the nesting of inlined helpers.
 const MaxInlineDepth = 3
 
@@ -283,6 +319,7 @@ type Ctx struct {
 	bind  map[ssa.Value]*Term // parameters / free variables of an inlined helper, bound to the caller's terms
 	tag   string               // name prefix for loop-carried values and cells of an inlined helper
 	inst  int                  // activation number on the path (0: the root function)
+	tsub  map[*types.TypeParam]types.Type // type parameters of an inlined generic helper, bound to the caller's type arguments
 }
 
 func newCtx(fi *FuncInfo) *Ctx {
@@ -301,7 +338,7 @@ func (c *Ctx) clone() *Ctx {
 	for k, v := range c.memo {
 		n.memo[k] = v
 	}
-	n.bind, n.tag, n.inst = c.bind, c.tag, c.inst
+	n.bind, n.tag, n.inst, n.tsub = c.bind, c.tag, c.inst, c.tsub
 	return n
 }
 
@@ -369,6 +406,49 @@ func (c *Ctx) term(v ssa.Value) *Term {
 
 func typeName(t types.Type) string { return Short(t.String()) }
 
+// typeName renders a type; inside an inlined generic helper its type parameters are written as the
+// caller's type arguments, so that the helper's terms read like the code they were extracted from.
+func (c *Ctx) typeName(t types.Type) string {
+	if len(c.tsub) > 0 {
+		t = substType(t, c.tsub)
+	}
+	return Short(t.String())
+}
+
+func substType(t types.Type, m map[*types.TypeParam]types.Type) types.Type {
+	switch x := t.(type) {
+	case *types.TypeParam:
+		if r, ok := m[x]; ok {
+			return r
+		}
+	case *types.Pointer:
+		return types.NewPointer(substType(x.Elem(), m))
+	case *types.Slice:
+		return types.NewSlice(substType(x.Elem(), m))
+	case *types.Array:
+		return types.NewArray(substType(x.Elem(), m), x.Len())
+	case *types.Map:
+		return types.NewMap(substType(x.Key(), m), substType(x.Elem(), m))
+	case *types.Chan:
+		return types.NewChan(x.Dir(), substType(x.Elem(), m))
+	case *types.Named:
+		if ta := x.TypeArgs(); ta != nil && ta.Len() > 0 {
+			args := make([]types.Type, ta.Len())
+			changed := false
+			for i := range args {
+				args[i] = substType(ta.At(i), m)
+				changed = changed || args[i] != ta.At(i)
+			}
+			if changed {
+				if inst, err := types.Instantiate(nil, x.Origin(), args, false); err == nil {
+					return inst
+				}
+			}
+		}
+	}
+	return t
+}
+
 func (c *Ctx) term1(v ssa.Value) *Term {
 	fn := c.fi.Fn
 	if l, ok := c.fi.ivOf[v]; ok {
@@ -401,10 +481,10 @@ func (c *Ctx) term1(v ssa.Value) *Term {
 		return mk("alloc", fmt.Sprintf("%s#%d", c.tag, c.fi.allocN[v]), v)
 	case *ssa.FieldAddr:
 		st := v.X.Type().Underlying().(*types.Pointer).Elem().Underlying().(*types.Struct)
-		return mk("fieldaddr", st.Field(v.Field).Name(), v, c.term(v.X))
+		return mk("fieldaddr", FieldName(st.Field(v.Field)), v, c.term(v.X))
 	case *ssa.Field:
 		st := v.X.Type().Underlying().(*types.Struct)
-		return mk("field", st.Field(v.Field).Name(), v, c.term(v.X))
+		return mk("field", FieldName(st.Field(v.Field)), v, c.term(v.X))
 	case *ssa.IndexAddr:
 		return mk("elemaddr", "", v, c.term(v.X), c.term(v.Index))
 	case *ssa.Index:
@@ -445,19 +525,19 @@ func (c *Ctx) term1(v ssa.Value) *Term {
 		}
 		return mk("extract", fmt.Sprintf("#%d", v.Index), v, c.term(v.Tuple))
 	case *ssa.Convert:
-		return mk("conv", typeName(v.Type()), v, c.term(v.X))
+		return mk("conv", c.typeName(v.Type()), v, c.term(v.X))
 	case *ssa.ChangeType:
-		return mk("conv", typeName(v.Type()), v, c.term(v.X))
+		return mk("conv", c.typeName(v.Type()), v, c.term(v.X))
 	case *ssa.MultiConvert:
-		return mk("conv", typeName(v.Type()), v, c.term(v.X))
+		return mk("conv", c.typeName(v.Type()), v, c.term(v.X))
 	case *ssa.ChangeInterface:
 		return c.term(v.X)
 	case *ssa.MakeInterface:
 		return c.term(v.X)
 	case *ssa.SliceToArrayPointer:
-		return mk("conv", typeName(v.Type()), v, c.term(v.X))
+		return mk("conv", c.typeName(v.Type()), v, c.term(v.X))
 	case *ssa.TypeAssert:
-		return mk("typeassert", typeName(v.AssertedType), v, c.term(v.X))
+		return mk("typeassert", c.typeName(v.AssertedType), v, c.term(v.X))
 	case *ssa.Slice:
 		if a, ok := v.X.(*ssa.Alloc); ok && a.Comment == "varargs" && !c.detached {
 			if vt := c.varargs(v, a); vt != nil {
@@ -466,11 +546,11 @@ func (c *Ctx) term1(v ssa.Value) *Term {
 		}
 		return mk("slice", "", v, c.term(v.X), c.term(v.Low), c.term(v.High), c.term(v.Max))
 	case *ssa.MakeSlice:
-		return mk("make", typeName(v.Type()), v, c.term(v.Len), c.term(v.Cap))
+		return mk("make", c.typeName(v.Type()), v, c.term(v.Len), c.term(v.Cap))
 	case *ssa.MakeMap:
-		return mk("make", typeName(v.Type()), v, c.term(v.Reserve))
+		return mk("make", c.typeName(v.Type()), v, c.term(v.Reserve))
 	case *ssa.MakeChan:
-		return mk("make", typeName(v.Type()), v, c.term(v.Size))
+		return mk("make", c.typeName(v.Type()), v, c.term(v.Size))
 	case *ssa.MakeClosure:
 		args := make([]*Term, len(v.Bindings))
 		for i, b := range v.Bindings {
@@ -496,7 +576,7 @@ func (c *Ctx) callTerm(v *ssa.Call) *Term {
 			args = append(args, c.term(a))
 		}
 		recvT := cc.Value.Type()
-		return mk("invoke", Short(types.TypeString(recvT, nil))+"."+cc.Method.Name(), v, args...)
+		return mk("invoke", c.typeName(recvT)+"."+cc.Method.Name(), v, args...)
 	}
 	for _, a := range cc.Args {
 		args = append(args, c.term(a))
@@ -520,11 +600,77 @@ func (c *Ctx) callTerm(v *ssa.Call) *Term {
 	}
 	ft := c.term(cc.Value)
 	if ft.Op == "closure" {
+		// a method value (x.M bound to its receiver) called later is the call x.M(args)
+		if m := BoundMethod(ft); m != nil && len(ft.Args) == 1 {
+			return mk("call", FuncName(m), v, append([]*Term{ft.Args[0]}, args...)...)
+		}
 		t := mk("call", ft.Name, v, args...)
 		t.Bind = ft.Args
 		return t
 	}
+	if ft.Op == "func" {
+		if f, ok := ft.Val.(*ssa.Function); ok {
+			return mk("call", FuncName(f), v, args...)
+		}
+	}
 	return mk("dyncall", "", v, append([]*Term{ft}, args...)...)
+}
+
+// BoundMethod returns, for the term of a method value (closure over go/ssa's bound method wrapper), the
+// declared method it stands for; nil for other terms and for interface method values.
+func BoundMethod(t *Term) *ssa.Function {
+	if t == nil || t.Op != "closure" {
+		return nil
+	}
+	mc, ok := t.Val.(*ssa.MakeClosure)
+	if !ok {
+		return nil
+	}
+	w, ok := mc.Fn.(*ssa.Function)
+	if !ok || !strings.HasPrefix(w.Synthetic, "bound method wrapper") {
+		return nil
+	}
+	obj, ok := w.Object().(*types.Func)
+	if !ok {
+		return nil
+	}
+	return w.Prog.FuncValue(obj)
+}
+
+// FuncOfTerm resolves a function-valued term (function, closure, method value) to the function that runs
+// when it is called, and the terms its free variables (closure) or receiver (method value: key "recv") are
+// bound to, in the vocabulary of the term's own path.
+func FuncOfTerm(t *Term) (*ssa.Function, map[string]*Term) {
+	for t != nil && t.Op == "conv" && len(t.Args) == 1 {
+		t = t.Args[0] // conversion of a func value to a named func type
+	}
+	if t == nil {
+		return nil, nil
+	}
+	switch t.Op {
+	case "func":
+		f, _ := t.Val.(*ssa.Function)
+		return f, map[string]*Term{}
+	case "closure":
+		if m := BoundMethod(t); m != nil {
+			b := map[string]*Term{}
+			if len(t.Args) == 1 {
+				b["recv"] = t.Args[0]
+			}
+			return m, b
+		}
+		mc, ok := t.Val.(*ssa.MakeClosure)
+		if !ok {
+			return nil, nil
+		}
+		f, _ := mc.Fn.(*ssa.Function)
+		b := map[string]*Term{}
+		for i, a := range t.Args {
+			b[fmt.Sprintf("fv%d", i)] = a
+		}
+		return f, b
+	}
+	return nil, nil
 }
 
 // StaticCallee resolves the callee of a call through closures bound to locals.
@@ -626,7 +772,7 @@ func (c *Ctx) loadTerm(v *ssa.UnOp) *Term {
 			if _, isAlloc := fa.X.(*ssa.Alloc); isAlloc {
 				if st := c.lastStore(v, c.term(fa.X).String(), root); st != nil {
 					stt := fa.X.Type().Underlying().(*types.Pointer).Elem().Underlying().(*types.Struct)
-					return mk("field", stt.Field(fa.Field).Name(), v, c.term(st.Val))
+					return mk("field", FieldName(stt.Field(fa.Field)), v, c.term(st.Val))
 				}
 			}
 		}
@@ -908,8 +1054,8 @@ func Enumerate(fn *ssa.Function) ([]*Path, error) {
 			if !ok {
 				continue
 			}
-			g, isFn := call.Call.Value.(*ssa.Function)
-			if !isFn || call.Call.IsInvoke() || len(g.Blocks) == 0 || fr.depth >= MaxInlineDepth || fr.active(g) || !Inlineable(g) {
+			g := InlineTarget(call)
+			if g == nil || fr.depth >= MaxInlineDepth || fr.active(g) {
 				continue
 			}
 			st2 := st.withStep(b, idx, i, fr.ctx.inst)
@@ -926,6 +1072,7 @@ func Enumerate(fn *ssa.Function) ([]*Path, error) {
 			if nth > 1 {
 				child.ctx.tag = fmt.Sprintf("%s~%d:", FuncName(g), nth) // a later activation of the same helper on this path
 			}
+			child.ctx.tsub = typeBinding(call, g, fr.ctx.tsub)
 			child.ctx.bind = map[ssa.Value]*Term{}
 			for k, prm := range g.Params {
 				if k < len(call.Call.Args) {
@@ -1389,7 +1536,7 @@ func (p *Path) FieldStores(cell ssa.Value) map[string]*Term {
 			return
 		}
 		stt := fa.X.Type().Underlying().(*types.Pointer).Elem().Underlying().(*types.Struct)
-		out[stt.Field(fa.Field).Name()] = p.Term(st.Val)
+		out[FieldName(stt.Field(fa.Field))] = p.Term(st.Val)
 	})
 	return out
 }
